@@ -18,7 +18,8 @@ def check(run):
         if r:
             stats, n, diffs = r
             run.oblige('correspondence(fill_rgb/fill_rgba: implementation = Model on %d planes)' % n, not diffs, json.dumps(diffs[:2])[:1500])
-            specdiff = [l for l in (run.rundir / 'model.txt').read_text().split('\n') if 'SPECDIFF' in l]
+            mt = run.rundir / 'model.txt'
+            specdiff = [l for l in (mt.read_text().split('\n') if mt.exists() else []) if 'SPECDIFF' in l]
             run.oblige('model_equals_spec_on_cases(extraction sanity)', not specdiff, 'SPECDIFF on %d cases' % len(specdiff))
             if diffs and tier != 'thorough':
                 r2 = correspondence(run, 'c13', tier='thorough', normalise=lambda s: s.replace(' SPECDIFF', ''))
